@@ -293,10 +293,162 @@ pub fn replay(shape_str: &str, sched: Vec<usize>, out: &str) -> Value {
     json!({"runs": 1})
 }
 
+/// Free-running mode: the same roles on real, uncontrolled OS threads (points only record). This
+/// reaches interleavings inside code that has no point (a window a change may open in a region the
+/// hooks treat as atomic) -- by chance, not by enumeration. Only observations are kept: their order
+/// in the sink is real-time order (begin is recorded before the call, ret after it), which is what
+/// the lenient (linearizability-style) validation needs.
+pub fn free_run(shape: &Shape, rng: &mut Rng) -> (Vec<Value>, Value, bool) {
+    use std::sync::atomic::{AtomicUsize, Ordering as AO};
+    verif::enable(true);
+    let _ = verif::take_events();
+    let det: Detached = verif::detached::<Dummy>(None).expect("detached");
+    let cell = det.cell.clone();
+    cell_set_running(&det);
+    let det = Arc::new(Mutex::new(det));
+    let nthreads = shape.senders + shape.drainers + 1;
+    let barrier = Arc::new(std::sync::Barrier::new(nthreads));
+    let others_done = Arc::new(AtomicUsize::new(0));
+    let mut names = crate::trace::Names::default();
+    let mut hs = vec![];
+    let mut tid = 0u64;
+    for s in 0..shape.senders {
+        tid += 1;
+        names.who.insert(format!("t{tid}"), format!("s{}", s + 1));
+        let (cell, barrier, done, n, ser, id) = (cell.clone(), barrier.clone(), others_done.clone(), shape.msgs, shape.serialized, tid);
+        hs.push(std::thread::spawn(move || {
+            verif::name_thread(id);
+            barrier.wait();
+            for k in 1..=n {
+                verif::emit_kv("obs.send_begin", 0, 0, vec![kv("k", Val::I(k as i64))]);
+                let ok = if ser {
+                    cell.send_serialized(ractor::message::SerializedMessage::Cast { variant: "m".into(), args: vec![s as u8 + 1, k as u8], metadata: None }).is_ok()
+                } else {
+                    cell.send_message(M(s as u32 + 1, k as u32)).is_ok()
+                };
+                verif::emit_kv("obs.send_ret", 0, i64::from(ok), vec![kv("k", Val::I(k as i64))]);
+            }
+            done.fetch_add(1, AO::SeqCst);
+        }));
+    }
+    for d in 0..shape.drainers {
+        tid += 1;
+        names.who.insert(format!("t{tid}"), format!("d{}", d + 1));
+        let (cell, barrier, done, id, spin) = (cell.clone(), barrier.clone(), others_done.clone(), tid, rng.below(400));
+        hs.push(std::thread::spawn(move || {
+            verif::name_thread(id);
+            barrier.wait();
+            for _ in 0..spin {
+                std::hint::spin_loop();
+            }
+            verif::emit("obs.drain_begin", 0, 0);
+            let _ = cell.drain();
+            verif::emit("obs.drain_ret", 0, 0);
+            done.fetch_add(1, AO::SeqCst);
+        }));
+    }
+    {
+        tid += 1;
+        names.who.insert(format!("t{tid}"), "c".into());
+        let (det, barrier, done, id, total) = (det.clone(), barrier.clone(), others_done.clone(), tid, shape.senders + shape.drainers);
+        hs.push(std::thread::spawn(move || {
+            verif::name_thread(id);
+            barrier.wait();
+            let mut last_chance = false;
+            loop {
+                let mut d = det.lock().unwrap();
+                match d.try_recv() {
+                    Recv::Msg(b) => {
+                        let m = decode(b);
+                        verif::emit_kv("obs.consume", 0, 0, vec![kv("kind", Val::S("msg".into())), kv("s", Val::S(format!("s{}", m.0))), kv("k", Val::I(m.1 as i64))]);
+                    }
+                    Recv::Drain => {
+                        verif::emit_kv("obs.consume", 0, 0, vec![kv("kind", Val::S("drain".into())), kv("s", Val::S("".into())), kv("k", Val::I(0))]);
+                        d.set_status(ActorStatus::Stopping);
+                        d.drop_ports();
+                        verif::emit("obs.ports_dropped", 0, 0);
+                        d.set_status(ActorStatus::Stopped);
+                        break;
+                    }
+                    Recv::Empty => {
+                        drop(d);
+                        if last_chance {
+                            break;
+                        }
+                        if done.load(AO::SeqCst) == total {
+                            last_chance = true; // everybody returned: look once more, then give up
+                        } else {
+                            std::thread::yield_now();
+                        }
+                    }
+                    Recv::Closed => break,
+                }
+            }
+        }));
+    }
+    for h in hs {
+        let _ = h.join();
+    }
+    let events = verif::take_events();
+    let mut d = det.lock().unwrap();
+    let w = verif::admission_word(&cell);
+    let closed = (w >> (usize::BITS - 1)) & 1;
+    let marker = (w >> (usize::BITS - 2)) & 1;
+    let cnt = w & ((1usize << (usize::BITS - 2)) - 1);
+    let mut left = vec![];
+    let mut rxclosed = 0;
+    loop {
+        match d.try_recv() {
+            Recv::Msg(b) => {
+                let m = decode(b);
+                left.push(json!({"s": format!("s{}", m.0), "k": m.1}));
+            }
+            Recv::Drain => left.push(json!({"s": "drain", "k": 0})),
+            Recv::Empty => break,
+            Recv::Closed => {
+                rxclosed = 1;
+                break;
+            }
+        }
+    }
+    let status = cell.get_status() as i64;
+    d.drop_ports();
+    d.drop_guard();
+    drop(d);
+    let mut evs: Vec<Value> = events.iter().filter(|e| e.a.starts_with("obs.")).map(|e| ev_json(e, &names)).collect();
+    let hung = shape.drainers > 0 && marker == 0 && rxclosed == 0;
+    evs.push(json!({"a": "obs.end", "who": "drv", "obj": "", "d": 0, "t": 0, "cnt": cnt, "closed": closed, "marker": marker,
+                    "status": status, "rxclosed": rxclosed, "q": left}));
+    let meta = json!({"family": "mailbox-free", "shape": format!("{shape:?}"), "sched": []});
+    (evs, meta, hung)
+}
+
+pub fn free_batch(out: &str, tier: &str, seed: u64, a_runs: Option<usize>) -> Value {
+    let mut b = Batch::new(Some(out));
+    let n: usize = a_runs.unwrap_or(if tier == "thorough" { 6000 } else { 600 });
+    let mut rng = Rng(seed ^ 0x66726565);
+    let shapes = [
+        Shape { senders: 2, msgs: 2, drainers: 1, turns: 0, quit_at: None, wrong_type: false, serialized: false },
+        Shape { senders: 3, msgs: 1, drainers: 1, turns: 0, quit_at: None, wrong_type: false, serialized: false },
+        Shape { senders: 2, msgs: 2, drainers: 1, turns: 0, quit_at: None, wrong_type: false, serialized: true },
+    ];
+    let mut hung = 0u64;
+    for i in 0..n {
+        let sh = &shapes[i % shapes.len()];
+        let (evs, meta, h) = free_run(sh, &mut rng);
+        hung += u64::from(h);
+        b.run(meta, &evs);
+    }
+    b.finish();
+    json!({"family": "mailbox-free", "runs": b.runs, "events": b.events, "distinct": b.hashes.len(),
+           "distinct_nontrivial": b.hashes.len(), "hung": hung, "samples": b.samples})
+}
+
 pub fn dispatch(cmd: &str, a: &std::collections::HashMap<String, String>) -> Option<Value> {
     let (out, tier, seed) = crate::common(a);
     match cmd {
         "mailbox" => Some(batch(&out, &tier, seed)),
+        "mailbox-free" => Some(free_batch(&out, &tier, seed, a.get("runs").and_then(|s| s.parse().ok()))),
         "mailbox-replay" => {
             let shape = a.get("shape-str").cloned().unwrap_or_default();
             let sched: Vec<usize> = serde_json::from_str(a.get("sched").map(|s| s.as_str()).unwrap_or("[]")).unwrap_or_default();
